@@ -46,6 +46,17 @@ func (e *Env) lookupVar(name string) (Value, bool) {
 		return nil, false
 	}
 	fr := e.fr
+	// a contract with an explicit parameter list binds its names by position,
+	// so renaming a parameter in the code does not invalidate the contract
+	if fr.spec != nil && len(fr.spec.Params) == len(fr.fn.Params) {
+		for i, n := range fr.spec.Params {
+			if n == name {
+				if v, ok := fr.vals[fr.fn.Params[i]]; ok {
+					return v, true
+				}
+			}
+		}
+	}
 	for i, p := range fr.fn.Params {
 		if p.Name() == name {
 			if v, ok := fr.vals[p]; ok {
